@@ -45,7 +45,9 @@ def gen_cases(ctx):
             sp = zoo.gen_spec(rng, "pd", nn, nn, rng.choice([[], [], [2]]), depth=1, dtype="f64", root="AddedDiag")
             if sp is not None:
                 yield dict(spec=sp, k=nn, cfg=dict(max_cholesky_size=None, fast_root=None), ciq=True, ciq_precond=rng.choice([2, 3]), seed=rng.randrange(1 << 30))
-        yield dict(spec=spec, k=rng.choice([1, 2, 3]), cfg=cfg, ciq=rng.random() < 0.15, seed=rng.randrange(1 << 30))
+        # warm: a query made on the operator BEFORE sampling (its cached factorization steers the sampler's choice of root method)
+        warm = rng.choice([None, None, None, "diagonalization", "logdet", "cholesky", "root_inv", "eigh", "svd", "root_lanczos"])
+        yield dict(spec=spec, k=rng.choice([1, 2, 3]), cfg=cfg, ciq=rng.random() < 0.15, seed=rng.randrange(1 << 30), warm=warm)
 
 
 def run_case(case, ctx):
@@ -92,6 +94,14 @@ def run_case(case, ctx):
             st.enter_context(settings.max_preconditioner_size(case["ciq_precond"]))
     with st, Recorder(keep=("lanczos",), clone=False) as rec, warnings.catch_warnings():
         warnings.simplefilter("ignore")
+        warm = case.get("warm")
+        if warm:
+            wf = {"diagonalization": lambda: op.diagonalization(), "logdet": lambda: op.logdet(), "cholesky": lambda: op.cholesky(),
+                  "root_inv": lambda: op.root_inv_decomposition(), "eigh": lambda: op.eigh(), "svd": lambda: op.svd(),
+                  "root_lanczos": lambda: op.root_inv_decomposition(method="lanczos")}[warm]
+            _, wex = compare.attempt(wf)
+            ctx.stat("warmed:" + warm if wex is None else "warm_query_raised:" + warm)
+            kw["info"] = info = info | {"warm:" + warm}
         res, ex = compare.attempt(sample, None)
         if ex is not None:
             if compare.explicit_unsupported(ex):
